@@ -149,7 +149,7 @@ class C11(core.Check):
     title = 'Save/load and the materialization cache round-trip losslessly'
     driver = 'drv_c11'
     quick_cases = 900
-    thorough_cases = 12000
+    thorough_cases = 10000
     rule = ('case families, all from the seeded PRNG: (a) TensorFrames built directly (any subset of the 9 stypes as keys, '
             '0-10 rows, 1-3 columns per stype; float32/float64/int64/int32/bool payloads with NaN, +-inf, -0.0 and '
             'float64-only values; tokenizer dicts of 1-4 keys whose per-cell lengths are equal / permuted / shifted '
